@@ -166,6 +166,10 @@ class Source:
 
     def find_fn(self, path):
         """path: 'free_fn' | 'Type::method' | '<Trait for Type>::method' | 'mod::free_fn'."""
+        m = re.match(r'^trait (\w+)::(\w+)$', path)
+        if m:
+            parent = self.find_item('trait ' + m.group(1))
+            return self._fn_in(parent.children, m.group(2), path)
         m = re.match(r'^<(.+)>::(\w+)$', path)
         if m:
             parent = self.find_item('impl ' + m.group(1))
